@@ -10,6 +10,7 @@
  * Behaviour is driven by files in $BVMON_CTL:
  *   fail_nth     integer k: the k-th logged invocation exits 1
  *   fail_match   lines; an invocation whose "name arg1 arg2 ..." starts with a line exits 1
+ *   fetched      marker written by a successful fetch/pull; then out/<key>.after_fetch replaces out/<key>
  *   out/<key>    canned stdout for read-only queries (key: status, tag-list, tag-merged,
  *                branch, remote, fetch, rev-parse, root)
  * Nothing is ever mutated by this program.
@@ -155,8 +156,23 @@ int main(int argc, char **argv) {
     int exitcode = fail ? 1 : 0;
     if (!fail && key && ctl) {
         size_t n = 0;
-        snprintf(path, sizeof path, "%s/out/%s", ctl, key);
-        unsigned char *d = slurp(path, &n);
+        /* a successful fetch/pull leaves a marker; afterwards out/<key>.after_fetch (if present) replaces out/<key> */
+        unsigned char *d = NULL;
+        if (!strcmp(key, "fetch")) {
+            snprintf(path, sizeof path, "%s/fetched", ctl);
+            FILE *m = fopen(path, "w");
+            if (m) fclose(m);
+        } else {
+            snprintf(path, sizeof path, "%s/fetched", ctl);
+            if (access(path, F_OK) == 0) {
+                snprintf(path, sizeof path, "%s/out/%s.after_fetch", ctl, key);
+                d = slurp(path, &n);
+            }
+        }
+        if (!d) {
+            snprintf(path, sizeof path, "%s/out/%s", ctl, key);
+            d = slurp(path, &n);
+        }
         if (d) { fwrite(d, 1, n, stdout); fflush(stdout); free(d); }
         else if (!strcmp(key, "remote") && !strcmp(name, "git")) exitcode = 1; /* like real git */
     }
